@@ -101,15 +101,19 @@ def GMproject (dom : Dom) (pots : CliqueVec α) (total : α) (attrs : List Attr)
   let ans := veLogspace (pots.map Prod.snd) elim total
   ans.projectSum attrs
 
-/-- `GraphicalModel.datavector` (graphical_model.py:138-143), flat values -/
-def GMdatavector (dom : Dom) (cliques : List Clique) (pots : CliqueVec α) (total : α)
-    (wgt : α) : List α :=
+/-- `GraphicalModel.datavector` (graphical_model.py:138-143), log-space part:
+`exp(logp − logp.logsumexp())` expanded onto the full domain -/
+def datavectorCore (dom : Dom) (cliques : List Clique) (pots : CliqueVec α) : Factor α :=
   match cliques.map pots.get with
-  | [] => []
+  | [] => Factor.zeros []
   | p :: ps =>
     let logp := ps.foldl Factor.add p
     let ans := (logp.subScalar logp.logsumexpAll).exp
-    ((ans.expand dom).vals.data.toList).map (fun v => Scalar.mul (Scalar.mul v wgt) total)
+    ans.expand dom
+
+/-- … and the plain-space tail `* wgt * total` on the flat values -/
+def datavectorScale {β : Type} [Scalar β] (flat : List β) (wgt total : β) : List β :=
+  flat.map (fun v => Scalar.mul (Scalar.mul v wgt) total)
 
 /-- `mle` (graphical_model.py:178-191): potentials from marginals, cliques in DFS order -/
 def mle (cliques : List Clique) (marg : CliqueVec α) : CliqueVec α :=
